@@ -37,12 +37,41 @@ pub fn make_stream(c: &Corpus, r: &mut Rng, compressed: bool, target: usize, sma
                 f[1] = *r.pick(&[2u8, 5, 11, 17, 21, 37, 38, 53, 54, 64, 253]);
                 s.extend(f);
             },
-            2 if !small_frames && compressed => {
-                // a maximum size frame
-                let lay = c.spec.packet("MCI");
-                let o = GenOpts { text: TextMode::Ascii, max_list: None, boundary: 4, hostile: false };
-                if let Some((_, f)) = c.ref_frame(r, lay, &o, compressed) {
-                    s.extend(f);
+            2 if !small_frames => {
+                // frames at and next to the mode's maximum size (1020 / 252 bytes): a full MAL (8 + 4n bytes), a full
+                // MCI, or an unknown / undecodable frame announcing the largest legal size
+                let maxn = lim / 4 * 4;
+                match r.below(4) {
+                    0 => {
+                        let n = (maxn - 8) / 4 - r.usize_below(3);
+                        let mut f = vec![0u8; 8 + 4 * n];
+                        f[0] = if compressed { (f.len() / 4) as u8 } else { f.len() as u8 };
+                        f[1] = 65; // IS_MAL
+                        f[2] = 1 + r.below(255) as u8;
+                        f[3] = n as u8;
+                        f[4] = r.below(48) as u8;
+                        f[5] = r.below(4) as u8;
+                        for k in 0..n {
+                            f[8 + 4 * k..12 + 4 * k].copy_from_slice(&(0x0100_0000u32 + k as u32 * 7919).to_le_bytes());
+                        }
+                        s.extend(f);
+                    },
+                    1 => {
+                        let lay = c.spec.packet("MCI");
+                        let o = GenOpts { text: TextMode::Ascii, max_list: None, boundary: 4, hostile: false };
+                        if let Some((_, f)) = c.ref_frame(r, lay, &o, compressed) {
+                            if f.len() <= lim {
+                                s.extend(f);
+                            }
+                        }
+                    },
+                    _ => {
+                        let n = maxn - 4 * r.usize_below(2);
+                        let mut f = r.bytes(n);
+                        f[0] = if compressed { (n / 4) as u8 } else { n as u8 };
+                        f[1] = if r.chance(1, 2) { 68 + r.below(180) as u8 } else { *r.pick(&[2u8, 5, 11, 17, 21, 37, 38, 53, 54, 64, 253]) };
+                        s.extend(f);
+                    },
                 }
             },
             3 => s.extend(if compressed { [1u8, 3, 0, 0] } else { [4u8, 3, 0, 0] }), // keep-alive
@@ -213,7 +242,7 @@ pub fn run(ctx: &mut Ctx) -> (&'static str, String, bool) {
                     continue;
                 }
                 let plan: Vec<RAct> = composition(total, mask).into_iter().map(RAct::Bytes).collect();
-                let case = ReadCase { compressed: *compressed, stream: stream.clone(), read_plan: plan, default_read: 0, write_plan: vec![], verify_version: false, label: format!("exhaustive-{label}-mask{mask}") };
+                let case = ReadCase { compressed: *compressed, stream: stream.clone(), read_plan: plan, default_read: 0, write_plan: vec![], verify_version: false, flush: 0, label: format!("exhaustive-{label}-mask{mask}") };
                 let _ = run_both(&case, &mut p);
                 p.distinct_extra += 2;
             }
@@ -260,7 +289,7 @@ pub fn run(ctx: &mut Ctx) -> (&'static str, String, bool) {
                             if at == nreads {
                                 plan.push(RAct::Error(kind));
                             }
-                            let case = ReadCase { compressed: *compressed, stream: stream.clone(), read_plan: plan, default_read: 0, write_plan: vec![], verify_version: false, label: format!("fault-{label}-seg{seg}-at{at}-{:?}-pend{pend}", kind) };
+                            let case = ReadCase { compressed: *compressed, stream: stream.clone(), read_plan: plan, default_read: 0, write_plan: vec![], verify_version: false, flush: 0, label: format!("fault-{label}-seg{seg}-at{at}-{:?}-pend{pend}", kind) };
                             let _ = run_both(&case, &mut p);
                             p.distinct(&case.label);
                         }
@@ -273,7 +302,7 @@ pub fn run(ctx: &mut Ctx) -> (&'static str, String, bool) {
                     continue;
                 }
                 for seg in [1usize, 4, 64] {
-                    let case = ReadCase { compressed: *compressed, stream: stream[..cut].to_vec(), read_plan: vec![], default_read: seg, write_plan: vec![], verify_version: false, label: format!("eof-{label}-cut{cut}-seg{seg}") };
+                    let case = ReadCase { compressed: *compressed, stream: stream[..cut].to_vec(), read_plan: vec![], default_read: seg, write_plan: vec![], verify_version: false, flush: 0, label: format!("eof-{label}-cut{cut}-seg{seg}") };
                     let _ = run_both(&case, &mut p);
                     p.distinct(&case.label);
                 }
@@ -326,7 +355,7 @@ pub fn run(ctx: &mut Ctx) -> (&'static str, String, bool) {
                     plan.insert(at, RAct::Pending);
                 }
             }
-            let case = ReadCase { compressed, stream, read_plan: plan, default_read, write_plan: vec![], verify_version: false, label: format!("long-{i}") };
+            let case = ReadCase { compressed, stream, read_plan: plan, default_read, write_plan: vec![], verify_version: false, flush: 0, label: format!("long-{i}") };
             p.distinct(&case.stream);
             let (a, b) = run_both(&case, &mut p);
             if i == 0 {
